@@ -2,7 +2,7 @@
 # The extracted model's scanner IS the specification here: Proofs_Lexer/Proofs_Scan show that it computes the
 # maximal-munch tokenisation of the rule table translated from lexer.l, spliced at include directives.  So a
 # disagreement between implementation and model on a scan case is a failing input of the property itself.
-import itertools, os, subprocess, sys, tempfile, shutil
+import itertools, os, re, subprocess, sys, tempfile, shutil
 sys.path.insert(0, os.path.dirname(os.path.abspath(__file__)))
 import vlib, gen_prog
 
@@ -136,6 +136,32 @@ def parse_scan(line):
     return toks, errs
 
 
+def dfa_counterexamples(ctx):
+    ok, _ = vlib.coq_make(['Proofs_Flex.vo'])
+    if ok:
+        return []
+    ok2, _ = vlib.coq_make(['Gen_Flex.vo', 'Gen_Lexer.vo', 'FlexModel.vo'])
+    if not ok2:
+        return []
+    import tempfile
+    d = tempfile.mkdtemp(prefix='theo-cex-', dir='/var/tmp')
+    try:
+        f = os.path.join(d, 'Cex.v')
+        open(f, 'w').write('From Theo Require Import Base Regex Tokens Lexer FlexModel Gen_Lexer Gen_Flex.\n'
+                           'Eval vm_compute in find_cex (256 * 256 * 4) flex_tables [(ft_start flex_tables, map fst rules, [])] [].\n')
+        r = vlib.sh(['timeout', '600', 'coqc', '-Q', vlib.COQ, 'Theo', f], cwd=d)
+        out = ' '.join(r.stdout.split())
+        m = re.search(r'= Some \[([^\]]*)\]', out)
+        if not m:
+            ctx.notes.append('DFA obligation broken; product search found no distinguishing string: ' + out[:200])
+            return []
+        w = bytes(int(x.strip().rstrip('%N')) for x in m.group(1).split(';') if x.strip())
+        ctx.notes.append('DFA obligation broken; distinguishing string from the product search: %r' % w)
+        return [w]
+    finally:
+        shutil.rmtree(d, ignore_errors=True)
+
+
 def explore(ctx, res, replay=None):
     pid = ctx.pid
     cases = []
@@ -166,6 +192,12 @@ def explore(ctx, res, replay=None):
                 add(kind, {'m': b}, 'm')
             for kind, files, main in gen_incl(ctx)[::7]:
                 add(kind, files, main)
+            # when the DFA-equivalence obligation (Proofs_Flex.v) no longer checks: a distinguishing string found by a
+            # search of the product of the translated tables and the rule list, evaluated inside Coq
+            for w in dfa_counterexamples(ctx):
+                add('dfa_counterexample', {'m': w}, 'm')
+                add('dfa_counterexample', {'m': w + b' x'}, 'm')
+                add('dfa_counterexample', {'m': b'x ' + w + b'\n'}, 'm')
         else:
             for kind, files, main in gen_incl(ctx):
                 add(kind, files, main)
